@@ -108,9 +108,10 @@ let run_case op t =
          | Val true -> leg1 (f p.conv c)
          | Val false -> "illformed"
          | o -> tokb_of o in
-       (* [time.duration.cons]: participates iff the source period is an exact multiple of the
-          target period; then the value is exact *)
-       let exact = Z.eqb (Z.modulo (Z.mul n1 d2) (Z.mul d1 n2)) Z0 in
+       (* [time.duration.cons]: participates iff the source period is an exact, representable
+          multiple of the target period; then the value is exact (C12_converting_constructor) *)
+       let exact = Z.eqb (Z.modulo (Z.mul n1 d2) (Z.mul d1 n2)) Z0
+                   && Z.leb (Z.div (Z.mul n1 d2) (Z.mul d1 n2)) max64 in
        let s =
          if not pok then "na"
          else if not exact then "illformed"
